@@ -1,5 +1,5 @@
 (* Wire glue for C20 (ops 20xx): universal value -> preview model/spec functions. *)
-From Fzf Require Import Prelude Val PreviewSpec PreviewModel.
+From Fzf Require Import Prelude Val PreviewSpec PreviewModel PreviewWindowSpec PreviewWindowModel.
 Open Scope Z_scope.
 
 Definition as_tmpl (v : val) : tmpl :=
@@ -121,6 +121,20 @@ Definition d_scroll_run (g : gate) (req headers w0 : Z) (sched : list slabel) : 
   let s := srun g req headers sched (sinit req w0) in
   VL [vbool (sdone s); vbool (k_lost s); vbool (k_edge s); VI (k_wn s); VI (k_woff s)].
 
+(* 2008: spec of a state no command belongs to: [tmpl, ui, [seen_cmd...], rows of the window that hold text] ->
+   [has_command, none_alive, window_blank, no_command_state_ok] *)
+Definition d_noline_spec (t : tmpl) (u : uistate) (cs : list seen_cmd) (rows : nat) : val :=
+  VL [vbool (has_command t u); vbool (none_alive cs); vbool (window_blank rows); vbool (no_command_state_ok t u cs rows)].
+
+(* 2009: the window machine: [height, follow, [[version, number of lines, offset]...]] (line k of an output is [k]) ->
+   [rows of the window that hold text, offset, filled] *)
+Definition mk_lines (n : nat) : list str := map (fun k => [Z.of_nat k]) (seq 1 n).
+Definition as_presult (v : val) : presult := mkPR (as_nat (arg v 0)) (mk_lines (as_nat (arg v 1))) (as_int (arg v 2)).
+Definition d_window_run (h : nat) (optf : bool) (rs : list presult) : val :=
+  let s := wrun h optf rs (winit h) in
+  VL [vnat (length (filter (fun r => match r with Some _ => true | None => false end) (w_rows s))); VI (w_off s);
+      vbool (m_filled s)].
+
 Definition dispatch_preview (op : Z) (a : val) : option val :=
   if op =? 2001 then
     Some (d_canonical (as_pol (arg a 0)) (as_tmpl (arg a 1)) (as_ui (arg a 2)) (map as_label (as_list (arg a 3))))
@@ -137,4 +151,8 @@ Definition dispatch_preview (op : Z) (a : val) : option val :=
     Some (d_scroll_run (as_gate (arg a 4)) (as_int (arg a 0)) (as_int (arg a 1)) (as_int (arg a 2)) (as_sched (arg a 3)))
   else if op =? 2007 then
     Some (d_canonical_closing (as_pol (arg a 0)) (as_tmpl (arg a 1)) (as_ui (arg a 2)) (map as_label (as_list (arg a 3))))
+  else if op =? 2008 then
+    Some (d_noline_spec (as_tmpl (arg a 0)) (as_ui (arg a 1)) (map as_seen (as_list (arg a 2))) (as_nat (arg a 3)))
+  else if op =? 2009 then
+    Some (d_window_run (as_nat (arg a 0)) (as_bool (arg a 1)) (map as_presult (as_list (arg a 2))))
   else None.
